@@ -247,7 +247,10 @@ class TickRateAttribute:
 
       LOGGER.error("ttp:tickRate invalid syntax")
 
-    # default value
+    # default value: the effective frame rate if ttp:frameRate is specified, one tick per second otherwise
+
+    if ttml_element.attrib.get(FrameRateAttribute.frame_rate_qn) is not None:
+      return FrameRateAttribute.extract(ttml_element)
 
     return 1
 
